@@ -316,6 +316,7 @@ class Timeline:
                     # throws a CPU exception? Generally, tracks should be stopped to prevent runaway repeats
                     # of errors.
                     self.tracks.remove(track)
+                    self._release_pending_notes(track)
                 else:
                     raise
             if track.is_finished and track.remove_when_done:
@@ -622,6 +623,18 @@ class Timeline:
         if track not in self.tracks:
             raise TrackNotFoundException("Track is not currently scheduled")
         self.tracks.remove(track)
+        self._release_pending_notes(track)
+
+    def _release_pending_notes(self, track: Track) -> None:
+        """
+        Take over the pending note-offs of a track that is leaving the timeline, so that notes
+        which are still sounding are released when they are due rather than left stuck.
+        """
+        for note_off in track.note_offs:
+            self.actions.append(Action(note_off.timeline_timestamp,
+                                       lambda note_off=note_off: track.output_device.note_off(note_off.note,
+                                                                                               note_off.channel)))
+        track.note_offs = []
 
     def _schedule_action(self,
                          function: Callable,
